@@ -33,6 +33,10 @@ def run(tier, seed, t0):
     na = T(tier, 30, 600)
     R.run_inv(Inv("forces", n, "plain", timeout=T(tier, 600, 7200)), seed, wd, m)
     R.run_inv(Inv("forces", na, "asan", timeout=T(tier, 900, 7200), first=n), seed, wd, m)
+    # cells with a history (collapsed/split edges, unused slots, nodes moved since the last geometry refresh) against fresh cells over the same mesh
+    nh = T(tier, 400, 20000)
+    R.run_inv(Inv("forces_hist", nh, "plain", timeout=T(tier, 900, 7200), tag="forces_hist/plain"), seed, wd, m)
+    R.run_inv(Inv("forces_hist", T(tier, 40, 800), "asan", timeout=T(tier, 900, 7200), first=nh, tag="forces_hist/asan"), seed, wd, m)
     # many cells evaluated concurrently (as the solver's parallel loop does) against the same cells one after another
     npar = T(tier, 16, 400)
     R.run_inv(Inv("forces_par", npar, "plain", threads=8, shards=2, timeout=T(tier, 900, 7200), tag="forces_par/plain/t8"), seed, wd, m)
@@ -51,6 +55,8 @@ def run(tier, seed, t0):
     floors["meshes_with_face_angle_outside_10_170deg"] = (m.bins.get("meshes_with_face_angle_outside_10_170deg", 0), 0.01 * meshes)
     floors["meshes_with_needle_triangles"] = (m.bins.get("family:sliver_ico", 0) + m.bins.get("family:sliver_box", 0) + m.bins.get("family:sliver_uvx", 0) + m.bins.get("family:sliver_prism", 0) + m.bins.get("family:sliver_icoell", 0) + m.bins.get("family:sliver_icostar", 0), 0.03 * meshes)
     floors["parallel_cell_evaluations"] = (m.bins.get("cell_evaluations", 0), 40 * npar)
+    floors["history_cells_with_unused_face_slots_in_the_middle"] = (m.bins.get("history_cells_with_unused_face_slots_in_the_middle", 0), 0.5 * nh)
+    floors["history_node_forces_compared"] = (m.bins.get("history_node_forces_compared", 0), 20 * nh)
     floors["pressure_capped"] = (m.bins.get("max_pressure:capping", 0), 0.03 * meshes)
     for cls in ("epithelial", "lumen", "nucleus"):
         floors["class_" + cls] = (m.bins.get("class:" + cls, 0), 0.15 * meshes)
@@ -61,7 +67,9 @@ def run(tier, seed, t0):
                     "(pressure | tension+area elasticity | bending | angle regularisation | all four with the same values | independent mixed "
                     "draw with growth and capped pressure); one evaluation = one (mesh, configuration), observed through node::force() after "
                     "apply_internal_forces(dt) and again on a rigidly moved copy; non-trivial = finite forces with max |F_i| above 1e-9 of the "
-                    "natural scale of the enabled terms; distinct = distinct hashes of the observed force field",
+                    "natural scale of the enabled terms; plus cells with a history (1-2 passes of the repository's refiner without compaction, then stretch / rotation / noise "
+                    "of the nodes): net force and torque of all terms, and pressure + tension + area-elasticity forces equal to those of a fresh cell built from the "
+                    "same live mesh (1e-8 of the largest force); distinct = distinct hashes of the observed force field",
                     t0, ["own long-double dV/dx_i and dA_f/dx_i are correct (cross-checked against central differences of the own V and A on ~6% of the meshes of every run, agreement 1e-5)",
                          "conservation tolerance 1e-10 + 64 eps Dmax/emin relative to sum|F| (sum|r||F|), plus 1e-12 of the natural scale as a noise floor",
                          "gradient oracles: 1e-9/sin^2(min face angle) of the pre-cancellation node force magnitude, plus the cancellation bound 8 F eps D^3/V of the origin-based volume entering A0",
